@@ -76,12 +76,20 @@ def perturb(v):
 _NO = object()
 
 
+def _snapshot(x):
+    """State of the original before/after the operations; a pickling failure is reported by the copy section below."""
+    try:
+        return (repr(x), pickle.dumps(x, protocol=4))
+    except Exception:
+        return (repr(x), None)
+
+
 def check_instance(x, rebuild, selector: int, label: str) -> list[tuple[str, str]]:
     out = []
     cls = type(x)
     name = f"{cls.__module__}:{cls.__qualname__}"
     fields = dataclasses.fields(x)
-    snapshot = (repr(x), pickle.dumps(x, protocol=4))
+    snapshot = _snapshot(x)
     # --- class level
     params = getattr(cls, "__dataclass_params__", None)
     if params is None or not params.frozen or not params.eq:
@@ -178,7 +186,7 @@ def check_instance(x, rebuild, selector: int, label: str) -> list[tuple[str, str
                     out.append((f"{how}-hash-differs", f"{name} ({label})"))
             except TypeError:
                 pass
-    if (repr(x), pickle.dumps(x, protocol=4)) != snapshot:
+    if _snapshot(x) != snapshot:
         out.append(("original-changed", f"{name}: the original instance changed while being copied/compared ({label})"))
     return out
 
